@@ -206,6 +206,9 @@ def grid(ctx, only_functions=None, thorough=None):
     for c in c13_cases.history_cases():
         for lay in (c13_dyn.LAYOUTS if thorough else ["contiguous", "slice"]):
             cells.append((c, lay, "history"))
+    for k, c in enumerate(c13_cases.random_history_cases(400 if thorough else 80)):
+        for lay in (c13_dyn.LAYOUTS if thorough else [c13_dyn.LAYOUTS[(k + ctx.seed) % 4]]):
+            cells.append((c, lay, "history"))
     return cells
 
 
@@ -249,6 +252,7 @@ def dynamic_stage(ctx, meta, cells, types, localise_limit=200):
     prof = c13_dyn.Profiler(types)
     stat = collections.Counter()
     by_kind = collections.Counter()
+    by_layout = collections.Counter()
     hits, degenerate = [], 0
     distinct = set()
     raised_samples = {}
@@ -256,6 +260,7 @@ def dynamic_stage(ctx, meta, cells, types, localise_limit=200):
         r = c13_dyn.run_case(case, lay, ctx.seed, prof)
         stat[r["status"]] += 1
         by_kind[kind] += 1
+        by_layout["%s/%s" % (kind, lay)] += 1
         degenerate += r["degenerate"]
         if r["status"] == "ok":
             distinct.add((case[0], case[1], lay))
@@ -286,7 +291,7 @@ def dynamic_stage(ctx, meta, cells, types, localise_limit=200):
     for tv in prof.type_violations[:5]:
         ctx.violation({"kind": "type-assumption-contradicted", "function": "%s::%s" % (tv[0], tv[1]), "parameter": tv[2], "observed_type": tv[3],
                        "correspondence": "tensor-typed parameters assumed by harness/own_ir.py (annotations / c13_types.json)"}, no_input=True)
-    return {"stat": dict(stat), "by_kind": dict(by_kind), "hits": reported, "degenerate": degenerate, "distinct_ok": len(distinct),
+    return {"stat": dict(stat), "by_kind": dict(by_kind), "by_layout": dict(by_layout), "hits": reported, "degenerate": degenerate, "distinct_ok": len(distinct),
             "executed": prof.executed, "type_checks": prof.type_checks, "type_violations": len(prof.type_violations),
             "raised_samples": dict(list(raised_samples.items())[:6])}
 
@@ -442,7 +447,7 @@ def run(ctx):
         "distinct_nontrivial": dyn["distinct_ok"],
         "rule": "dynamic cells (entry, variant, layout) whose call completed without raising and in which every caller tensor / pre-existing operator "
                 "was compared before/after; distinct by (entry, variant, layout); cells that raised or could not be built are not counted",
-        "dynamic": {"cells": sum(dyn["stat"].values()), "status": dyn["stat"], "by_kind": dyn["by_kind"], "hits": len(dyn["hits"]),
+        "dynamic": {"cells": sum(dyn["stat"].values()), "status": dyn["stat"], "by_kind": dyn["by_kind"], "by_kind_and_layout": dyn["by_layout"], "hits": len(dyn["hits"]),
                     "hits_unknown": sum(1 for h in dyn["hits"] if not h["known"]), "tensors_that_could_not_take_layout": dyn["degenerate"],
                     "library_functions_executed": len(executed), "translated_functions_with_inplace_sites_executed":
                         len({(m, q) for (m, q) in executed if (m, q) in translated}),
@@ -484,7 +489,7 @@ def replay(rp):
         print(json.dumps(rp, indent=1)[:3000])
         print("no concrete input in this replay file (broken obligation / contradicted table): see fields above")
         return 1
-    allc = c13_cases.utility_cases() + c13_cases.operator_cases() + c13_cases.history_cases()
+    allc = c13_cases.utility_cases() + c13_cases.operator_cases() + c13_cases.history_cases() + c13_cases.random_history_cases(400)
     case = next((c for c in allc if c[0] == rp["entry"] and c[1] == rp["variant"]), None)
     if case is None:
         print("unknown case", rp["entry"], rp["variant"])
